@@ -477,7 +477,26 @@ def mp_modification(i):
     return lines, decl
 
 
-MAPPING_CHUNKS = {'short': mp_block_short, 'two-res': mp_block_two_residues, 'long': mp_block_longhand, 'mod': mp_modification}
+def mp_block_extra_nodes(i):
+    """Two identifiers in one direction; extra nodes declared in [ from nodes ], qualified lines with attributes followed by
+    bare names: a bare name takes the attributes of the last used IDENTIFIER, not those written on the line before it."""
+    lines = ['[ block ]', '[ from ]', 'fa', '[ to ]', 'fb', '[ from blocks ]', 'X1#1 X2#2', '[ to blocks ]', 'X1',
+             '[ from nodes ]', 'X1#1:ZA {"element": "N", "charge": -1}', 'ZB', 'X2#2:ZC {"element": "O"}', 'ZD',
+             '[ from edges ]', 'X1#1:D X2#2:E', 'X1#1:A X1#1:ZA', 'X1#1:ZA X1#1:ZB', 'X2#2:F X2#2:ZC', 'X2#2:ZC X2#2:ZD',
+             '[ mapping ]', 'X1#1:A P', 'B P', 'C Q', 'D Q', 'ZA P', 'ZB P', 'X2#2:E Q', 'F Q', 'ZC Q', 'ZD Q']
+    decl = {'type': 'block', 'names': ['X1', 'X2'], 'ff_from': 'fa', 'ff_to': 'fb',
+            'from_nodes': [['X1', 1, 'A'], ['X1', 1, 'B'], ['X1', 1, 'C'], ['X1', 1, 'D'], ['X2', 2, 'E'], ['X2', 2, 'F'],
+                           ['X1', 1, 'ZA'], ['X1', 1, 'ZB'], ['X2', 2, 'ZC'], ['X2', 2, 'ZD']],
+            'from_edges': [['A1', 'B1'], ['B1', 'C1'], ['C1', 'D1'], ['D1', 'E2'], ['E2', 'F2'], ['A1', 'ZA1'], ['ZA1', 'ZB1'], ['F2', 'ZC2'], ['ZC2', 'ZD2']],
+            'to_nodes': [['X1', 1, 'P'], ['X1', 1, 'Q']], 'to_edges': [['P1', 'Q1']],
+            'mapping': {'A1': {'P1': 1}, 'B1': {'P1': 1}, 'C1': {'Q1': 1}, 'D1': {'Q1': 1}, 'ZA1': {'P1': 1}, 'ZB1': {'P1': 1},
+                        'E2': {'Q1': 1}, 'F2': {'Q1': 1}, 'ZC2': {'Q1': 1}, 'ZD2': {'Q1': 1}},
+            'references': {}, 'from_extra': [['ZA1', 'N', -1], ['ZC2', 'O', None]]}
+    return lines, decl
+
+
+MAPPING_CHUNKS = {'short': mp_block_short, 'two-res': mp_block_two_residues, 'long': mp_block_longhand, 'mod': mp_modification,
+                  'extra-nodes': mp_block_extra_nodes}
 
 
 def canon_mapping(mapping):
@@ -493,6 +512,8 @@ def canon_mapping(mapping):
         'to_edges': sorted(sorted((tag(bt, a), tag(bt, b))) for a, b in bt.edges),
         'mapping': {tag(bf, a): {tag(bt, b): w for b, w in targets.items()} for a, targets in mapping.mapping.items()},
         'references': {tag(bt, t): tag(bf, f) for t, f in mapping.references.items()},
+        'from_extra': sorted([tag(bf, k), bf.nodes[k].get('element'), bf.nodes[k].get('charge')] for k in bf.nodes
+                             if bf.nodes[k].get('element') is not None or bf.nodes[k].get('charge') is not None),
     }
 
 
@@ -500,6 +521,8 @@ def sort_decl(decl):
     out = dict(decl)
     out['from_nodes'] = sorted(decl['from_nodes'], key=repr)
     out['to_nodes'] = sorted(decl['to_nodes'], key=repr)
+    out['from_edges'] = sorted(sorted(e) for e in decl['from_edges'])
+    out['from_extra'] = sorted(decl.get('from_extra', []))
     return out
 
 
